@@ -46,6 +46,8 @@ KeyOf(id) == LET hit == {k \in 1..Len(Ev.ps) : Ev.ps[k][2] = id} IN IF hit = {} 
 \* the previous batch was never handed to the consumer (the harness does not decode it): its sub-streams are gapped
 Discard == IF phase = "flight" THEN Ids(orig) ELSE {}
 
+StatSig(sg) == <<IF sg = "traces" THEN 1 ELSE 0, IF sg = "logs" THEN 1 ELSE 0, IF sg = "metrics" THEN 1 ELSE 0>>
+
 TEncodeOk ==
   /\ IsEv("Encode") /\ Ev.oc = "ok" /\ phase \in {"idle", "flight"}
   /\ LET recs == [i \in 1..Len(Ev.pl) |-> <<Ev.pl[i][2], KeyOf(Ev.pl[i][1]), IF i = 1 THEN Ev.rows = 1 ELSE TRUE>>]
@@ -59,6 +61,11 @@ TEncodeOk ==
         \* ... and the stream producers it is left with are the recorded ones
         /\ {<<x.key, x.id, x.pt>> : x \in st.streams} = {<<Ev.ps[k][1], Ev.ps[k][2], Ev.ps[k][3]>> : k \in 1..Len(Ev.ps)}
         /\ Ev.n = batchId                                                        \* batch ids count up from zero
+        \* the producer's own statistics (when read: since the previous Encode event) are functions of this step:
+        \* stream producers created = ids taken, closed = stream producers retired, one batch of this signal
+        /\ Len(Ev.st) = 5 => /\ Ev.st[1] = st.next - nextId
+                              /\ Ev.st[2] = Cardinality({x.id : x \in pstreams} \ {x.id : x \in st.streams})
+                              /\ <<Ev.st[3], Ev.st[4], Ev.st[5]>> = StatSig(Ev.sig)
         /\ pstreams' = st.streams /\ nextId' = st.next /\ ann' = st.ann /\ retiredIds' = st.ret
         /\ wire' = st.out /\ orig' = st.out /\ gapped' = g
         /\ judged' = (\A x \in cstreams : x.id \in Ids(st.out) \cap g => x.st = "unopened")
@@ -78,6 +85,7 @@ TEncodeOk ==
 TEncodeErr ==
   /\ IsEv("Encode") /\ Ev.oc # "ok" /\ phase \in {"idle", "flight"}
   /\ Ev.oc = "error" => {<<x.key, x.id, x.pt>> : x \in pstreams} = {<<Ev.ps[k][1], Ev.ps[k][2], Ev.ps[k][3]>> : k \in 1..Len(Ev.ps)}
+  /\ Ev.oc = "error" /\ Len(Ev.st) = 5 => Ev.st = <<0, 0, 0, 0, 0>>      \* ... and counts nothing
   /\ gapped' = gapped \cup Discard /\ phase' = "idle" /\ res' = "none"
   /\ UNCHANGED <<pstreams, nextId, batchId, wire, orig, bsig, cstreams, pos, got, nfaults, altered, judged, ann, retiredIds, lost, kh>>
   /\ l' = l + 1
